@@ -1125,6 +1125,10 @@ class SVG:
             for el in self._iter_nested_svgs(svg)
         )
 
+        # choose the id of our viewport clip while the clips of the nested svgs
+        # are still attached to the tree, or we would hand out the same id again
+        clip_path_id = self._new_id("nested-svg-viewport-%d")
+
         g = etree.Element(f"{{{svgns()}}}g")
         g.extend(svg)
 
@@ -1154,9 +1158,7 @@ class SVG:
         if overflow != "hidden":
             raise NotImplementedError(f"overflow='{overflow}' is not supported")
 
-        clip_path = etree.Element(
-            f"{{{svgns()}}}clipPath", {"id": self._new_id("nested-svg-viewport-%d")}
-        )
+        clip_path = etree.Element(f"{{{svgns()}}}clipPath", {"id": clip_path_id})
         clip_path.append(to_element(SVGRect(x=x, y=y, width=width, height=height)))
         clipped_g = etree.Element(f"{{{svgns()}}}g")
         clipped_g.attrib["clip-path"] = f"url(#{clip_path.attrib['id']})"
